@@ -338,6 +338,10 @@ func genData(t *testing.T, tr *vhlib.Trace, r *vhlib.Rand, n int, defects bool) 
 		switch x := r.Intn(100); {
 		case x < 22:
 			write(r.Intn(nroots))
+			if r.Chance(1, 6) {
+				// the pruner runs while the upload is not yet referenced
+				w.doPrune()
+			}
 		case x < 30:
 			sync()
 		case x < 42:
@@ -365,7 +369,7 @@ func genData(t *testing.T, tr *vhlib.Trace, r *vhlib.Rand, n int, defects bool) 
 			if cur := w.rootsInts(2, 1); len(cur) > 0 {
 				w.doRevise2(1, cur[:r.Intn(len(cur))])
 			}
-		case x < 67:
+		case x < 68:
 			if len(w.writers) == 0 {
 				w.doTick()
 				acked = map[int]bool{}
@@ -459,11 +463,46 @@ func genData(t *testing.T, tr *vhlib.Trace, r *vhlib.Rand, n int, defects bool) 
 			scenarioTwoWriters(w, r, nroots)
 		case 3:
 			scenarioUnsyncedTemp(w, r, nroots)
+		case 4:
+			scenarioSyncRace(w, r, nroots)
+		case 5:
+			scenarioResizeStale(w, r, nroots)
 		}
 	}
 	for _, k := range referenced() {
 		w.doRead(k)
 	}
+}
+
+// genSparse: a volume with more slots than resizeBatchSize (64) whose few sectors sit near the end
+// of the file (uploads whose disk write failed have moved the slot rotation forward), grown and
+// shrunk in several batches.
+func genSparse(t *testing.T, tr *vhlib.Trace, r *vhlib.Rand) {
+	w := newWorld(t, tr, "data", 0)
+	defer w.close()
+	tr.Line("reset mode=data cache=0", "")
+	n := 67 + r.Intn(8)
+	id := w.doVmAdd(uint64(n))
+	w.doAddC1(1, 40, 5)
+	skip := 64 + r.Intn(n-66)
+	for k := 0; k < skip; k++ {
+		w.doReserve(1, 90)
+		w.doFinish(1, false)
+	}
+	a, b := 91+r.Intn(3), 95+r.Intn(3)
+	w.doWrite(a)
+	w.doWrite(b)
+	w.doSync()
+	w.doRevise1(1, []string{fmt.Sprintf("a%d", a), fmt.Sprintf("a%d", b)})
+	w.doVmResize(id, uint64(n+1+r.Intn(70)), nil)
+	w.doRead(a)
+	w.doRead(b)
+	w.doVmResize(id, uint64(3+r.Intn(60)), genInj(r, 2, true))
+	w.doRead(a)
+	w.doRead(b)
+	w.doRestart()
+	w.doRead(a)
+	w.doRead(b)
 }
 
 // RHP3 UpdateSector / RHP2 update: ReadSector(old) -> patch the returned buffer in place -> Write(new root, same buffer)
@@ -510,6 +549,49 @@ func scenarioUnsyncedTemp(w *world, r *vhlib.Rand, nroots int) {
 	w.doRead(k)
 }
 
+// two RPCs share a volume: S's Sync() fsyncs it, B's upload lands after that fsync and marks the volume
+// dirty before S clears the dirty flag; B's own Sync() then has nothing to do
+func scenarioSyncRace(w *world, r *vhlib.Rand, nroots int) {
+	id := w.doVmAdd(30)
+	ids, _ := w.liveVols()
+	for _, x := range ids {
+		if x != id {
+			w.doVmSetRO(x, true)
+		}
+	}
+	k := nroots + 40
+	w.doWrite(k)
+	w.doSyncRace(id, k+1, 24)
+	w.doSync()
+	last := w.lastRoot
+	w.doRevise1(1, []string{fmt.Sprintf("a%d", last)})
+	w.doCrash(1000, 1)
+	w.doRead(last)
+}
+
+// a second ResizeVolume reads the volume's size, then the first one grows the volume and a sector is
+// uploaded into the new area; the second resize passes the status check with the stale size
+func scenarioResizeStale(w *world, r *vhlib.Rand, nroots int) {
+	id := w.doVmAdd(2)
+	ids, _ := w.liveVols()
+	for _, x := range ids {
+		if x != id {
+			w.doVmSetRO(x, true)
+		}
+	}
+	w.doResizePark(id, 3)
+	w.doVmResize(id, 6, nil)
+	k := nroots + 70
+	for j := 0; j < 5; j++ {
+		w.doWrite(k + j)
+	}
+	w.doSync()
+	w.doRevise1(1, []string{fmt.Sprintf("a%d", k), fmt.Sprintf("a%d", k+4)})
+	w.doResizeGo()
+	w.doRead(k)
+	w.doRead(k + 4)
+}
+
 // ---------------------------------------------------------------- replay
 
 func ints(ss []string) []int {
@@ -529,6 +611,16 @@ func replay(t *testing.T, tr *vhlib.Trace, ops []vhlib.ParsedLine) {
 		}
 	}()
 	for _, op := range ops {
+		if w != nil {
+			// `L` in a replay file stands for the root of the last upload a syncrace made
+			for k, v := range op.Args {
+				if v == "L" {
+					op.Args[k] = fmt.Sprint(w.lastRoot)
+				} else if strings.Contains(v, "aL") {
+					op.Args[k] = strings.ReplaceAll(v, "aL", fmt.Sprintf("a%d", w.lastRoot))
+				}
+			}
+		}
 		if op.Op == "reset" {
 			if w != nil {
 				w.close()
@@ -632,6 +724,10 @@ func replay(t *testing.T, tr *vhlib.Trace, ops []vhlib.ParsedLine) {
 			w.doSync()
 		case "syncrace":
 			w.doSyncRace(v, op.Int("r"), op.Int("tries"))
+		case "resizepark":
+			w.doResizePark(v, op.U64("n"))
+		case "resizego":
+			w.doResizeGo()
 		case "cache":
 			w.doCache(op.Int("n"))
 		case "crash":
@@ -671,6 +767,9 @@ func TestEngine(t *testing.T) {
 	r := vhlib.NewRand(r0.Uint64() ^ (cfg.Seed * 0xD6E8FEB86659FD93))
 	if mode != "data" && (cfg.Tier == "thorough" || cfg.Extra["big"] == "1") {
 		genBig(t, tr, r)
+	}
+	if mode == "data" {
+		genSparse(t, tr, r)
 	}
 	for i := 0; i < cfg.N; i++ {
 		switch {
